@@ -516,6 +516,207 @@ func (s *concScan) sharedTypes() map[concTypeRef]bool {
 	return seen
 }
 
+// ---- alias-then-write pattern -----------------------------------------------------------------
+//
+// Inside one function: a LOCAL variable bound (by :=, =, range, type switch, `v, ok := m[k]`) to an
+// expression rooted at the receiver (of a font-graph type), at a parameter whose type mentions a
+// font-graph type, at a package-level variable, or at another such local; and later an element,
+// field or pointee write through that local (x[i] = …, x.f = …, *x = …, x[i]++, append/copy/
+// delete/clear on it).  Direct writes through such a parameter are listed too (direct receiver
+// writes are inventory (b)).  No flow analysis: a local that is rebound to fresh memory before the
+// write is still reported (over-approximation, pinned by the committed expectation).
+
+type concAliasKey struct {
+	decl any
+	name string
+}
+
+func (s *concScan) mentionsShared(cf *concFile, p *concPkg, e ast.Expr, ref map[concTypeRef]bool) bool {
+	found := false
+	ast.Inspect(e, func(n ast.Node) bool {
+		switch x := n.(type) {
+		case *ast.SelectorExpr:
+			if id, ok := x.X.(*ast.Ident); ok {
+				if d, imp := cf.imports[id.Name]; imp && ref[concTypeRef{d, x.Sel.Name}] {
+					found = true
+				}
+			}
+			return false
+		case *ast.Ident:
+			if p.types[x.Name] != nil && ref[concTypeRef{p.dir, x.Name}] {
+				found = true
+			}
+		}
+		return true
+	})
+	return found
+}
+
+func concStripAddr(e ast.Expr) ast.Expr {
+	for {
+		switch x := e.(type) {
+		case *ast.ParenExpr:
+			e = x.X
+		case *ast.UnaryExpr:
+			if x.Op != token.AND {
+				return e
+			}
+			e = x.X
+		default:
+			return e
+		}
+	}
+}
+
+func (s *concScan) scanAliases(fn *concFunc, ref map[concTypeRef]bool) []concWrite {
+	if fn.decl == nil {
+		return nil
+	}
+	alias := map[concAliasKey]string{} // local -> what it was bound to
+	params := map[*ast.Object]bool{}
+	var recv *ast.Object
+	if fn.recvObj != nil && ref[concTypeRef{fn.pkg.dir, fn.recv}] {
+		recv = fn.recvObj
+	}
+	if fn.decl.Type.Params != nil {
+		for _, f := range fn.decl.Type.Params.List {
+			if s.mentionsShared(fn.file, fn.pkg, f.Type, ref) {
+				for _, n := range f.Names {
+					if n.Obj != nil {
+						params[n.Obj] = true
+					}
+				}
+			}
+		}
+	}
+	isAlias := func(id *ast.Ident) bool {
+		if id == nil || id.Obj == nil {
+			return false
+		}
+		_, ok := alias[concAliasKey{id.Obj.Decl, id.Name}]
+		return ok
+	}
+	rooted := func(e ast.Expr) bool { // does e denote (part of) possibly shared memory?
+		root, firstSel, _ := concRoot(concStripAddr(e))
+		if root == nil {
+			return false
+		}
+		if root.Obj != nil && (root.Obj == recv || params[root.Obj]) {
+			return true
+		}
+		if isAlias(root) {
+			return true
+		}
+		_, _, ok := s.varRef(fn, root, firstSel)
+		return ok
+	}
+	bind := func(lhs ast.Expr, rhs ast.Expr, decls ...any) bool {
+		id, ok := lhs.(*ast.Ident)
+		if !ok || id.Name == "_" || id.Obj == nil || id.Obj == recv || params[id.Obj] {
+			return false
+		}
+		if fn.pkg.topSpecs[id.Obj.Decl] || !rooted(rhs) {
+			return false
+		}
+		changed := false
+		for _, d := range append(decls, id.Obj.Decl) {
+			k := concAliasKey{d, id.Name}
+			if _, ok := alias[k]; !ok {
+				alias[k] = strings.Join(strings.Fields(src(rhs)), " ")
+				changed = true
+			}
+		}
+		return changed
+	}
+	for pass := 0; pass < 4; pass++ {
+		changed := false
+		ast.Inspect(fn.body, func(n ast.Node) bool {
+			switch x := n.(type) {
+			case *ast.AssignStmt:
+				if len(x.Lhs) == len(x.Rhs) {
+					for i := range x.Lhs {
+						changed = bind(x.Lhs[i], x.Rhs[i]) || changed
+					}
+				} else if len(x.Rhs) == 1 && len(x.Lhs) == 2 {
+					switch x.Rhs[0].(type) {
+					case *ast.IndexExpr, *ast.TypeAssertExpr:
+						changed = bind(x.Lhs[0], x.Rhs[0]) || changed
+					}
+				}
+			case *ast.RangeStmt:
+				if x.Value != nil && x.Tok == token.DEFINE {
+					changed = bind(x.Value, x.X) || changed
+				}
+			case *ast.TypeSwitchStmt:
+				if as, ok := x.Assign.(*ast.AssignStmt); ok && len(as.Lhs) == 1 && len(as.Rhs) == 1 {
+					if id, ok := as.Lhs[0].(*ast.Ident); ok && rooted(as.Rhs[0]) {
+						// the symbol is declared anew in every clause
+						for _, cl := range x.Body.List {
+							k := concAliasKey{cl, id.Name}
+							if _, ok := alias[k]; !ok {
+								alias[k] = strings.Join(strings.Fields(src(as.Rhs[0])), " ")
+								changed = true
+							}
+						}
+					}
+				}
+			}
+			return true
+		})
+		if !changed {
+			break
+		}
+	}
+	var out []concWrite
+	note := func(e ast.Expr, kind string, at ast.Node, needStep bool) {
+		root, _, stripped := concRoot(e)
+		if root == nil || root.Obj == nil || (needStep && !stripped) {
+			return
+		}
+		via := ""
+		switch {
+		case isAlias(root):
+			via = root.Name + " := " + alias[concAliasKey{root.Obj.Decl, root.Name}]
+		case params[root.Obj]:
+			via = "parameter " + root.Name
+		default:
+			return
+		}
+		out = append(out, concWrite{Pkg: concPkgLabel(fn.pkg.dir), Var: via, Func: fn.key, Kind: kind, Pos: s.pos(at),
+			Expr: strings.Join(strings.Fields(src(e)), " ")})
+	}
+	ast.Inspect(fn.body, func(n ast.Node) bool {
+		switch x := n.(type) {
+		case *ast.AssignStmt:
+			if x.Tok != token.DEFINE {
+				for _, l := range x.Lhs {
+					note(l, "assign", x, true)
+				}
+			}
+		case *ast.IncDecStmt:
+			note(x.X, "incdec", x, true)
+		case *ast.RangeStmt:
+			if x.Tok == token.ASSIGN {
+				if x.Key != nil {
+					note(x.Key, "assign", x, true)
+				}
+				if x.Value != nil {
+					note(x.Value, "assign", x, true)
+				}
+			}
+		case *ast.CallExpr:
+			if f, ok := x.Fun.(*ast.Ident); ok && f.Obj == nil && len(x.Args) > 0 {
+				switch f.Name {
+				case "append", "copy", "delete", "clear":
+					note(x.Args[0], f.Name, x, false)
+				}
+			}
+		}
+		return true
+	})
+	return out
+}
+
 // ---- name-based reachability ------------------------------------------------------------------
 
 var concRoots = []string{
@@ -524,7 +725,7 @@ var concRoots = []string{
 	"sfnt.Font.Widths", "sfnt.Font.WidthsPDF", "sfnt.Font.WidthsMapPDF",
 	"sfnt.Font.GlyphWidth", "sfnt.Font.GlyphWidthPDF",
 	"sfnt.Font.GlyphBBox", "sfnt.Font.GlyphBBoxes", "cff.Outlines.GlyphBBoxPDF", "glyf.Outlines.GlyphBBoxPDF",
-	"sfnt.Font.MakeGlyphNames", "sfnt.Font.GetFontInfo", "sfnt.Font.AsCFF",
+	"sfnt.Font.MakeGlyphNames", "sfnt.Font.GlyphName", "sfnt.Font.GetFontInfo", "sfnt.Font.AsCFF",
 	"sfnt.Font.NewLayouter", "sfnt.Layouter.Layout",
 	"cff.Font.Write", "cff.Font.FontBBoxPDF",
 	"opentype/gtab.NewContext", "opentype/gtab.Context.Apply", "opentype/gtab.Info.FindLookups",
@@ -679,6 +880,28 @@ func genConc() {
 	facts["conc.receiverWrites.sharedTypes"] = rShared
 	facts["conc.receiverWrites.reachable"] = rReach
 	facts["conc.syncGoChan.library"] = syncLib
+	// font-graph types that can hold shared memory (named basic types like glyph.ID cannot)
+	ref := map[concTypeRef]bool{}
+	for r := range shared {
+		if p := s.pkgs[r.dir]; p != nil && p.types[r.name] != nil {
+			if _, basic := p.types[r.name].Type.(*ast.Ident); !basic {
+				ref[r] = true
+			}
+		}
+	}
+	aliasAll, aliasReach := []concWrite{}, []concWrite{}
+	for _, fn := range s.funcs {
+		if !concIsLib(fn.pkg) {
+			continue
+		}
+		ws := s.scanAliases(fn, ref)
+		aliasAll = append(aliasAll, ws...)
+		if reach[fn.key] {
+			aliasReach = append(aliasReach, ws...)
+		}
+	}
+	facts["conc.aliasWrites.library"] = aliasAll
+	facts["conc.aliasWrites.reachable"] = aliasReach
 	pc := []string{}
 	for k := range perCall {
 		pc = append(pc, k)
@@ -732,6 +955,9 @@ func genConc() {
 	concLeanList(l, "concSyncGoChan",
 		"(c) (function, kind) for every use of package sync / atomic, every `go` statement and every channel make, library packages",
 		concDedup(syncLib, kSync))
+	concLeanList(l, "concAliasWritesReachable",
+		"(d) alias-then-write: (function, kind target <- binding) for every write through a local bound to receiver/parameter/package-level rooted memory of a font-graph type (or directly through such a parameter), in functions reachable from `concRoots`; no flow analysis",
+		concDedup(aliasReach, func(w concWrite) []string { return []string{w.Func, w.Kind + " " + w.Expr + " <- " + w.Var} }))
 	l.p("/-- number of functions reachable from `concRoots` (diagnostic) -/\ndef concReachableCount : Nat := %d\n", len(rk))
 	l.write()
 }
